@@ -63,6 +63,14 @@ class _Renamer(ast.NodeTransformer):
         return node
 
 
+class _Assert2If(ast.NodeTransformer):
+    """assert c, m  →  if not c: raise AssertionError(m)"""
+    def visit_Assert(self, node):
+        exc = ast.Call(func=ast.Name(id="AssertionError", ctx=ast.Load()), args=[node.msg] if node.msg else [], keywords=[])
+        return ast.copy_location(ast.If(test=ast.UnaryOp(op=ast.Not(), operand=node.test),
+                                        body=[ast.Raise(exc=exc, cause=None)], orelse=[]), node)
+
+
 class _Logger(ast.NodeTransformer):
     """Insert a harmless logging call at the start of every function body."""
     def visit_FunctionDef(self, node):
@@ -87,6 +95,9 @@ def overlay(kind):
                         ov[rel] = ast.unparse(ast.parse(src)) + "\n"
                     elif kind == "rename":
                         ov[rel] = ast.unparse(ast.fix_missing_locations(_Renamer().visit(ast.parse(src)))) + "\n"
+                        compile(ov[rel], rel, "exec")
+                    elif kind == "assert2if":
+                        ov[rel] = ast.unparse(ast.fix_missing_locations(_Assert2If().visit(ast.parse(src)))) + "\n"
                         compile(ov[rel], rel, "exec")
                     elif kind == "log":
                         ov[rel] = ast.unparse(ast.fix_missing_locations(_Logger().visit(ast.parse(src)))) + "\n"
